@@ -549,7 +549,9 @@ func (s *MemoryBackend) ReadUsersetTuples(
 			userType := tupleUtils.GetType(t.User)
 			_, userRelation := tupleUtils.SplitObjectRelation(t.User)
 			for _, allowedType := range filter.AllowedUserTypeRestrictions {
-				if allowedType.GetType() == userType && allowedType.GetRelation() == userRelation {
+				// A typed wildcard tuple (empty user relation) is admitted by a wildcard restriction only,
+				// not by a direct type reference such as `user`.
+				if allowedType.GetType() == userType && allowedType.GetRelation() == userRelation && (userRelation != "" || allowedType.GetWildcard() != nil) {
 					matches = append(matches, t)
 					break // add the tuple once, even if several (duplicated) restrictions admit it
 				}
